@@ -17,7 +17,7 @@ YOUR TASK: produce TWO different, realistic source changes (call them "a" and "b
 Requirements for each change:
  1. It must need something SPECIFIC to manifest — a particular interleaving, a crash or fault at a particular point, a multi-step sequence of operations, an unusual input, or two cooperating sites — NOT something ordinary use would expose at once, and not something that makes most inputs fail.
  2. After the change: `cd /tmp/seed_{i} && export GOFLAGS=-mod=mod GOPROXY=off GOSUMDB=off && go build ./... && go test -vet=off -count=1 ./...` must give the same results as before the change. (Known on the unchanged tree: av/format/flv TestFlvWriter, av/format/mpegts TestMpegtsWriter and av/format/rtp TestDemuxer always fail because test assets are missing, and service/wsp TestRequest_ResponseOK is flaky. Everything else passes.) There is no network.
- 3. Provide a DEMONSTRATION: a Go test file (placed in the relevant package directory, named zz_seed_demo_test.go, using only the standard library and the project's own packages) containing a test that FAILS with your change applied and PASSES on the unchanged tree. Verify both yourself (use `git stash` / `git apply` as needed). If the change is a concurrency bug, the demo may force the interleaving with small sleeps, channels or loops, but it must fail reliably (say so if it is probabilistic and how often it fails).
+ 3. Provide a DEMONSTRATION: a Go test file (placed in the relevant package directory, named zz_seed_demo_test.go, using only the standard library and the project's own packages) containing a test that FAILS with your change applied and PASSES on the unchanged tree. Verify both yourself. IMPORTANT: never use `git stash` (the stash is shared with other worktrees of this repository); to switch between the changed and unchanged tree use `git diff > /tmp/seed_{i}_out/x.diff; git apply -R /tmp/seed_{i}_out/x.diff` and `git apply /tmp/seed_{i}_out/x.diff`. If the change is a concurrency bug, the demo may force the interleaving with small sleeps, channels or loops, but it must fail reliably (say so if it is probabilistic and how often it fails).
  4. Keep each change small (a few lines, at most ~30) and confined to non-test .go files of the project.
 
 DELIVERABLES — write these files (create the directory /tmp/seed_{i}_out):
